@@ -403,6 +403,13 @@ class Interp:
             if isinstance(base, Obj):
                 if e.attr in base.attrs:
                     return base.attrs[e.attr]
+                ci = base.attrs.get('__class__')
+                if ci is not None:
+                    m = self.repo.find_method(ci, e.attr)
+                    if m is not None:
+                        static = any(model.norm(d) == 'staticmethod'
+                                     for d in m.node.decorator_list)
+                        return ('bound', m, None if static else base)
                 raise Unsupported('attribute %s of %r' % (e.attr, base))
             if isinstance(base, tuple) and base and base[0] == 'global':
                 return ('global', base[1] + '.' + e.attr)
@@ -536,6 +543,15 @@ class Interp:
             raise Unsupported('method %s of %r' % (attr, base))
         if isinstance(f, Closure):
             return self.apply(f.node, f.env, args, kwargs)
+        if isinstance(f, tuple) and len(f) == 3 and f[0] == 'bound':
+            m, recv = f[1], f[2]
+            sub = Interp(self.repo, m.module, self.oracle,
+                         self.isinstance_oracle, self.max_steps)
+            sub.steps, sub.trace = self.steps, self.trace
+            out = sub.apply(m.node, {}, ([recv] if recv is not None
+                                         else []) + args, kwargs)
+            self.steps = sub.steps
+            return out
         if isinstance(f, model.FuncInfo):
             r = self.oracle(f.key, args, kwargs)
             if r is not None:
